@@ -326,6 +326,9 @@ bool OPNMIDIplay::realTime_NoteOn(uint8_t channel, uint8_t note, uint8_t velocit
     if(note >= 127)
         note = 127;
 
+    if(static_cast<size_t>(channel) >= m_midiChannels.size())
+        channel = channel % 16;
+
     if((synth.m_musicMode == Synth::MODE_RSXX) && (velocity != 0))
     {
         // Check if this is just a note after-touch
@@ -342,8 +345,6 @@ bool OPNMIDIplay::realTime_NoteOn(uint8_t channel, uint8_t note, uint8_t velocit
         }
     }
 
-    if(static_cast<size_t>(channel) >= m_midiChannels.size())
-        channel = channel % 16;
     noteOff(channel, note, velocity != 0);
     // On Note on, Keyoff the note first, just in case keyoff
     // was omitted; this fixes Dance of sugar-plum fairy
